@@ -7,7 +7,7 @@ from ..runner import Case, Property
 class C19(Property):
     id = "C19"
     lean_module = "RosuModel.Props.C19Full"   # imports Props/C19Curve.lean (→ Props/C19Lipschitz.lean, Props/C19.lean, Props/C16Surplus.lean) and Props/C19Ieee.lean; namespace Rosu.C19
-    theorem_modules = ['RosuModel.Props.C19Curve', 'RosuModel.Props.C19Ieee', 'RosuModel.Props.C19IeeePos', 'RosuModel.Props.C19IeeeBound', 'RosuModel.Props.C19IeeeErr', 'RosuModel.Props.C19IeeeSearch']   # files whose top-level theorems are all audited
+    theorem_modules = ['RosuModel.Props.C19Curve', 'RosuModel.Props.C19Ieee', 'RosuModel.Props.C19IeeePos', 'RosuModel.Props.C19IeeeBound', 'RosuModel.Props.C19IeeeErr', 'RosuModel.Props.C19IeeeSearch', 'RosuModel.Props.C19IeeeFinite', ('RosuModel.Lemmas.FloatErrRange32', 'Rosu.FErr')]   # files whose top-level theorems are all audited
     namespace = "Rosu.C19"
     design_ref = "5.19"
     level_text = (
@@ -36,7 +36,9 @@ class C19(Property):
         "Model tied to the code bit-for-bit "
         "(positions, distances, indices, also for NaN / unsorted lengths).")
     technique = "Lean 4 proof (generic arithmetic, structural) + bit-exact differential correspondence + independent oracle"
-    required_theorems = ["bsLoop_spec_ieee", "idxOfDist_spec_ieee", "idxOfDist_bracket_float", "idxOfDist_below_ieee", "idxOfDist_beyond_ieee", "positionAt_dist_err_float32",
+    required_theorems = ["segFinite_statement_false", "segFinite_of_bounded", "weight_finite", "coordInterp_finite", "segFinite_of_curve", "positionAt_dist_err_float32_nofin",
+                         "positionAt_dist_on_polyline_float32_nofin", "positionAt_progress_err_float32_nofin",
+                         "bsLoop_spec_ieee", "idxOfDist_spec_ieee", "idxOfDist_bracket_float", "idxOfDist_below_ieee", "idxOfDist_beyond_ieee", "positionAt_dist_err_float32",
                          "positionAt_dist_on_polyline_float32", "positionAt_progress_err_float32", "demo_idx",
                          "interpolate_err_float32", "interpolate_on_segment_float32", "segment_length_err_float32", "segment_length_underflow_example", "natural_length_err_float",
                          "natural_length_err_float_linear", "position_lipschitz_segment_float32", "position_arc_segment_float32", "chord_le_booked_float",
@@ -54,6 +56,14 @@ class C19(Property):
                          # Props/C19Ieee.lean: the order part of PosLaws for the driver's Float; the search finds an exact hit for IEEE doubles
                          "posLaws_order_float", "bsLoop_hit_ieee", "idxOfDist_hit_ieee", "idxOfDist_hit_float"]
     partial_theorems = {
+        "positionAt_progress_err_float32_nofin / segFinite_statement_false": "Props/C19IeeeFinite.lean, Lemmas/FloatErrRange32.lean (sixth session, wave 8): the no-overflow hypothesis `SegFinite` of the position theorems is "
+            "DISCHARGED. The statement as first recorded (segFinite_statement) is FALSE: Bounded19 bounds `toRat32`, which is 0 by convention for ±∞ / NaN, so it does not exclude an infinite coordinate "
+            "(segFinite_statement_false, kernel witness p0 = (+∞, 0)). With `FinitePos` for the vertices added (segFinite_corrected_statement) it is a theorem, for any finite d1 including f64::MAX: "
+            "segFinite_of_bounded (weight_finite: d1 ⊖ d0 and the weight are finite and |w| ≤ 3; coordInterp_finite), from new range lemmas 'no overflow from a bound on the exact value' for f64 ⊕ ⊖, "
+            "f32 ⊕ ⊖ ⊗ and the narrowing cast (Lemmas/FloatErrRange32.lean: add/sub_finite_float(_max), add/sub/mul_finite_float32(_max), down_finite_of_lt, down_finite_of_abs_le_one). Hence "
+            "positionAt_dist_err_float32_nofin / positionAt_dist_on_polyline_float32_nofin / positionAt_progress_err_float32_nofin: for a curve with sorted lengths starting at 0 with a finite total and finite "
+            "Bounded19 vertices, position_at(q) is a vertex or within 1/4 px per coordinate of the exact point of the bracketing segment, with NO finiteness hypothesis about intermediates left. What stays "
+            "outside: that a computed curve's lengths are sorted and its vertices Bounded19 (C16's side), and the Lipschitz bound across segments",
         "positionAt_progress_err_float32 / idxOfDist_spec_ieee": "Props/C19IeeeSearch.lean (sixth session, wave 7): the binary search specified from IEEE order facts alone (no arithmetic; generic over IeeeOrd): "
             "idxOfDist_spec_ieee — on a weakly sorted NaN-free list and a non-NaN d the search returns the LAST index holding d on a hit (±0 identified), otherwise the first index whose length exceeds d; "
             "idxOfDist_bracket_float — in range the index brackets d (strictly on both sides, or a hit of the right end; i = 0 only on a hit of lengths[0]; i = n impossible); idxOfDist_below_ieee / _beyond_ieee. "
